@@ -35,6 +35,7 @@ LEVEL = {
                    "ContextDecorator subclasses do in _recreate_cm.",
     "technique": "static analysis: structural rules over the decorator wrapper and its re-creation chain",
 }
+LEVEL["decided"] += ' (R15.6) the stored constructor arguments, shared by every call, are never rebound or mutated after construction.'
 
 
 def run(ctx) -> None:
